@@ -617,6 +617,7 @@ pub fn run(run: &mut Run) -> Result<(), String> {
                 plan.raws.push((Box::new(EpUniverse::reduced()), b(0, 0)));
                 plan.raws.push((Box::new(DoubleCheck { kings: vec![4, 27], own_kinds: vec![Kind::P, Kind::N] }), b(0, 0)));
                 plan.lines = Some(b(1, 0));
+                plan.raws.push((Box::new(EpCheck { second: vec![Kind::Q], files: if q { vec![0, 3] } else { (0..8).collect() } }), b(0, 0)));
                 if !q {
                     plan.raws.push((Box::new(TwoLines { enemy_kings: vec![35] }), b(d1, 0)));
                     plan.start = Some(b(4, 0));
@@ -650,7 +651,11 @@ pub fn run(run: &mut Run) -> Result<(), String> {
                 plan.raws.push((Box::new(PinUniverse { kings: vec![27, 36], far_side: true }), b(0, 0)));
                 plan.raws.push((Box::new(PromoUniverse { sliders: vec![Kind::R] }), b(d1, 0)));
                 plan.raws.push((Box::new(Material), b(0, 0)));
+                plan.raws.push((Box::new(EpCheck { second: vec![Kind::Q], files: (0..8).collect() }), b(0, 0)));
+                plan.raws.push((Box::new(Caged { inner: Box::new(CheckPin { kings: vec![15, 55] }), variants: 3 }), b(0, 0)));
             } else {
+                plan.raws.push((Box::new(Caged { inner: Box::new(CheckPin { kings: vec![15, 55, 12, 52, 20, 44, 0, 63, 27] }), variants: 3 }), b(0, 0)));
+                plan.raws.push((Box::new(EpCheck { second: vec![Kind::B, Kind::R, Kind::Q], files: (0..8).collect() }), b(d1, 0)));
                 plan.raws.push((Box::new(PinUniverse { kings: vec![27, 36, 18, 45, 4], far_side: true }), b(0, 0)));
                 plan.raws.push((Box::new(PromoUniverse { sliders: vec![Kind::R, Kind::B, Kind::Q] }), b(d1, 0)));
                 plan.raws.push((Box::new(Material), b(d1, 0)));
@@ -696,7 +701,10 @@ pub fn run(run: &mut Run) -> Result<(), String> {
                 plan.raws.push((Box::new(EpUniverse::own_sliders()), b(1, 0)));
                 plan.raws.push((Box::new(EpUniverse::before_push(q)), b(1, 0)));
                 plan.raws.push((Box::new(PromoUniverse { sliders: vec![Kind::R] }), b(1, 0)));
+                plan.raws.push((Box::new(Battery { enemy_kings: vec![35, 28, 0, 63, 4, 59], stride: 1 }), b(1, 0)));
             } else {
+                plan.raws.push((Box::new(Battery { enemy_kings: (0..64).collect(), stride: 1 }), b(1, 1)));
+                plan.raws.push((Box::new(EpCheck { second: vec![Kind::Q], files: (0..8).collect() }), b(1, 0)));
                 plan.lines = Some(b(3, 2));
                 plan.raws.push((Box::new(PromoUniverse { sliders: vec![Kind::R, Kind::B, Kind::Q] }), b(1, 1)));
                 plan.raws.push((Box::new(EpUniverse::before_push(q)), b(1, 1)));
@@ -730,8 +738,11 @@ pub fn run(run: &mut Run) -> Result<(), String> {
                 plan.raws.push((Box::new(PinUniverse { kings: vec![4, 27], far_side: false }), b(0, 0)));
                 plan.raws.push((Box::new(PinUniverse { kings: vec![27], far_side: true }), b(0, 0)));
                 plan.raws.push((Box::new(EpFile), b(0, 0)));
+                plan.raws.push((Box::new(EpCheck { second: vec![Kind::Q], files: (0..8).collect() }), b(0, 0)));
                 plan.lines = Some(b(1, 1));
             } else {
+                plan.raws.push((Box::new(EpCheck { second: vec![Kind::B, Kind::R, Kind::Q], files: (0..8).collect() }), b(0, 0)));
+                plan.raws.push((Box::new(Caged { inner: Box::new(CheckPin { kings: vec![15, 55] }), variants: 3 }), b(0, 0)));
                 plan.raws.push((Box::new(PinUniverse { kings: vec![27, 36, 18], far_side: true }), b(0, 0)));
                 plan.raws.push((Box::new(Material), b(0, 0)));
                 plan.raws.push((Box::new(PinUniverse { kings: vec![4, 27, 0, 60, 36], far_side: false }), b(0, 0)));
@@ -767,8 +778,10 @@ pub fn run(run: &mut Run) -> Result<(), String> {
                 plan.raws.push((Box::new(CheckPin { kings: vec![27] }), b(0, 0)));
                 plan.raws.push((Box::new(EpExposure), b(0, 0)));
                 plan.raws.push((Box::new(PinUniverse { kings: vec![27], far_side: false }), b(0, 0)));
+                plan.raws.push((Box::new(EpCheck { second: vec![Kind::Q], files: vec![0, 3, 6] }), b(0, 0)));
                 plan.lines = Some(b(1, 0));
             } else {
+                plan.raws.push((Box::new(EpCheck { second: vec![Kind::B, Kind::R, Kind::Q], files: (0..8).collect() }), b(0, 0)));
                 plan.raws.push((Box::new(PinUniverse { kings: vec![4, 27], far_side: false }), b(0, 0)));
                 plan.raws.push((Box::new(EpFile), b(0, 0)));
                 plan.raws.push((Box::new(EpExposure), b(0, 0)));
